@@ -12,7 +12,16 @@ func fld(id int, name, req string, t *TRef, def ...string) MField {
 	return f
 }
 
-func corpusMain() *MProgram {
+// corpusMain is the full corpus; corpusNoStructSet leaves out set<Inner> (DeepEqual over sets of
+// structs multiplies the paths of C18 beyond its budget).
+func corpusMain() *MProgram { return corpusBuild(true, true) }
+
+// corpusNoStructSet: without set<Inner> and without the defaulted optional member of Inner (both
+// multiply the paths of the pairwise DeepEqual exploration of C18 beyond its budget; neither
+// matters for structural equality).
+func corpusNoStructSet() *MProgram { return corpusBuild(false, false) }
+
+func corpusBuild(structSet, elemDefault bool) *MProgram {
 	f := &MFile{Path: "a.thrift", Namespace: "a"}
 	f.Enums = []MEnum{{Name: "Color", Values: []struct {
 		Name string
@@ -62,7 +71,6 @@ func corpusMain() *MProgram {
 			fld(11, "ld", "", tList(tBase("double"))),
 			fld(12, "mi", "", tMap(tBase("string"), tBase("i64"))),
 			fld(13, "mb", "optional", tMap(tBase("i16"), tBase("bool"))),
-			fld(14, "si", "", tSet(tStruct("Inner"))),
 		}},
 		{Kind: "struct", Name: "Nested", Fields: []MField{
 			fld(1, "in", "", tStruct("Inner")),
@@ -90,6 +98,20 @@ func corpusMain() *MProgram {
 			fld(1, "msg", "", tBase("string")),
 			fld(2, "code", "optional", tBase("i32")),
 		}},
+	}
+	if !elemDefault {
+		for i := range f.Structs {
+			if f.Structs[i].Name == "Inner" {
+				f.Structs[i].Fields = f.Structs[i].Fields[:2]
+			}
+		}
+	}
+	if structSet {
+		for i := range f.Structs {
+			if f.Structs[i].Name == "Containers" {
+				f.Structs[i].Fields = append(f.Structs[i].Fields, fld(14, "si", "", tSet(tStruct("Inner"))))
+			}
+		}
 	}
 	return &MProgram{Files: []*MFile{f}}
 }
